@@ -236,7 +236,7 @@ def gen_cases(ctx):
             cases.append(([(name, kind), ("x.mmm", "file")], "abs"))
     n_exh = len(cases)
     rng = ctx.rng("trees")
-    for _ in range(ctx.n(1200, 20000)):
+    for _ in range(ctx.n(4000, 30000)):
         k = rng.choice([2, 3, 3, 4, 5, 6, 8])
         names = rng.sample(NAMES, min(k, len(NAMES)))
         entries = [(n, rng.choice(KINDS if rng.random() < 0.6 else ["file", "file", "empty"])) for n in names]
